@@ -324,6 +324,12 @@ def run(tier):
     corr_convolution(chk, r, 200 if thorough else 40)
     search_entries(chk, r, 72 if thorough else 18, 2 if thorough else 1, thorough)
     search_contraction(chk, r, 18 if thorough else 5, thorough)
+    # which coefficient function and which flavour number a parton gets is taken from the code's own
+    # Combiner above; for the simplest family (photon exchange, massless scheme, up to a_s) the
+    # assignment itself is checked against the published coefficient functions and nf = 3 + #walls <= Q2
+    from .c04 import search_runs_vs_closed_forms
+
+    search_runs_vs_closed_forms(chk, r, 12 if thorough else 3, oracle="entries_vs_published_coefficient_functions")
     chk.assumptions += [
         "the assembly of compute_local (no scale variations) and convolve_vector are modelled by hand (Model/Conv.lean) and tied by the compute_local_assembly / convolve_vector_is_map / convolution_exits correspondences; scale-variation orders are C05's",
         "numerical quadrature (scipy.integrate.quad with the 1e-10 border cut) is observed against an independent quadrature in another integration variable with other breakpoints: entries agree to 2e-7 of the operator scale; it is not proved",
